@@ -239,7 +239,7 @@ func TestC15(t *testing.T) {
 // C16: a definition reload affects only jobs scheduled afterwards.
 func TestC16(t *testing.T) {
 	cfg := &Cfg{Prop: "C16", MaxPipelines: 2, MaxTasks: 4, DelayPct: 35, ReplacePct: 15, AllowFailPct: 10, ContinuePct: 0,
-		LimitChoices: []int{-1, -1, 2, 3}, Weights: map[string]int{"schedule": 30, "cancel": 4, "finish": 28, "timer": 10, "hold": 6, "release": 6, "reload": 16, "save": 3},
+		LimitChoices: []int{-1, -1, 2, 3}, Weights: map[string]int{"schedule": 30, "cancel": 9, "finish": 26, "timer": 10, "hold": 6, "release": 6, "reload": 16, "save": 3},
 		Armed: map[string]bool{"C16": true}}
 	runHistories(t, histOpts{cfg: cfg, failPct: 0,
 		rule:       "histories with reloads (1-3 edits: task added/removed/rewired, script/env changed, delay added/removed/changed, limits/strategy changed, pipeline added/removed) landing while jobs wait, wait with pending delay, or run between tasks (hold); oracle: per job a deep copy of its pipeline at accept time - the runner log must show exactly those tasks/commands/env/dependencies, the job carries that delay and does not start before its own timer; requests after a reload are admitted, queued, replaced or rejected as the definition in force says (also when a lowered concurrency is below the number of running jobs); the reload call itself changes no job and causes no runner activity; after the drain no job of a still-defined pipeline is stranded; nobody canceled => plain success; non-trivial = a reload while the edited pipeline had a waiting and a running job; distinct by action trace",
